@@ -11,7 +11,7 @@ import itertools
 from vk import core
 
 LEVEL = "model_checking"
-RULE = ("all creation histories of length <= 3 (quick; the 8-AVP typed S6a request only in histories <= 2) / <= 4 (thorough; histories of 4 hold the typed S6a request and answer at most once each) over 6 creation kinds x all os.urandom "
+RULE = ("all creation histories of length <= 3 (quick; the 8-AVP typed S6a request only in histories <= 2) / <= 4 (thorough; histories of 4 hold the typed S6a request and answer at most once each) over 6 creation kinds (plus requests/answers built from an explicit header whose length field is 0, in histories <= 2 / <= 3 with plain requests) x all os.urandom "
         "answer sequences over 3 symbols, enumerated lazily as a tree (a branch point at every draw the code "
         "makes), at most 8 (quick) / 10 (thorough) draws per history; sequences that would need more draws are "
         "counted and discarded; the 3 symbols are instantiated with 4-byte values unique to each execution so "
@@ -26,6 +26,8 @@ ASSUMPTIONS = [
 ]
 
 KINDS = ["req", "dwr", "ulr", "explicit", "answer", "ula"]
+# further kinds, explored in histories of <= 2 (quick) / <= 3 (thorough) together with "req"
+EXTRA_KINDS = ["explicit-len0", "answer-explicit-len0"]
 
 
 class NeedDraw(Exception):
@@ -82,6 +84,13 @@ def create(kind):
     if kind == "explicit":
         h = DiameterHeader(command_code=316, application_id=16777251, hop_by_hop=0x01010101, end_to_end=0x02020202)
         return DiameterRequest(header=h)
+    if kind == "explicit-len0":
+        # an explicit header whose Message Length field says 0 (len(header) == 0: a falsy object)
+        h = DiameterHeader(length=0, command_code=316, application_id=16777251, hop_by_hop=0x01010101, end_to_end=0x02020202)
+        return DiameterRequest(header=h)
+    if kind == "answer-explicit-len0":
+        h = DiameterHeader(length=0, command_code=316, application_id=16777251, hop_by_hop=0x01010101, end_to_end=0x02020202)
+        return DiameterAnswer(header=h)
     if kind == "answer":
         return DiameterAnswer(command_code=316, application_id=16777251)
     if kind == "ula":
@@ -142,7 +151,7 @@ def execute(history, script):
             reg1 = registry_sizes()
             if reg0 is not None and reg1 != reg0:
                 errs.append((f"C15:registry-grew:{kind}", f"creation {i} ({kind}) grew the identifier registries {reg0}->{reg1}"))
-            want = (b"\x01\x01\x01\x01", b"\x02\x02\x02\x02") if kind == "explicit" else (b"\x00" * 4, b"\x00" * 4)
+            want = (b"\x01\x01\x01\x01", b"\x02\x02\x02\x02") if "explicit" in kind else (b"\x00" * 4, b"\x00" * 4)
             if (hbh, e2e) != want:
                 errs.append((f"C15:identifier-altered:{kind}", f"creation {i} ({kind}) carries {hbh.hex()}/{e2e.hex()}, given {want[0].hex()}/{want[1].hex()}"))
         made.append((kind, hbh, e2e, auto))
@@ -282,6 +291,10 @@ def run(report, tier, seed):
             if ln == 4 and (h.count("ulr") > 1 or h.count("ula") > 1):
                 continue
             hs.append(h)
+    for ln in range(1, (2 if tier == "quick" else 3) + 1):
+        for h in itertools.product(["req"] + EXTRA_KINDS, repeat=ln):
+            if any(k in EXTRA_KINDS for k in h):
+                hs.append(h)
     # histories with the most draws dominate the cost: spread them
     k = seed % len(hs)
     hs = hs[k:] + hs[:k]
